@@ -242,12 +242,13 @@ def run_mc(pid, tier, workdir, export_depth=None):
     for i, consts in enumerate(mcconf.INSTANCES[pid][tier]):
         consts = dict(consts)
         every = consts.pop("_export_every", None)
+        module = consts.get("_module", "EngineConf")
         if export_depth is not None:
             consts["ExportDepth"] = export_depth
             consts["ExportEvery"] = every or mcconf.EXPORT_EVERY.get(tier, 53)
         cfg = mcconf.cfg_text(consts)
         limit = int(os.environ.get("VERIF_MC_BUDGET_S", "100" if tier == "quick" else "480"))
-        res = run_tlc(os.path.join(workdir, "mc%d" % i), SPEC, "EngineConf", cfg, workers=TLC_WORKERS, timeout=limit, java_opts="-Xss1g -Xmx16g", soft=True)
+        res = run_tlc(os.path.join(workdir, "mc%d" % i), SPEC, module, cfg, workers=TLC_WORKERS, timeout=limit, java_opts="-Xss1g -Xmx16g", soft=True)
         text = res["text"]
         for name, h in tla_json_lines(text, "CEX"):
             summary["cex"].append({"invariant": name, "script": hist_to_script(h, "MC-CEX:%s:%s" % (pid, name))})
@@ -282,7 +283,7 @@ def engine_trace(trace, workdir):
 
 
 # state invariant of Engine.tla -> the property whose statement it expresses
-INV_PROPERTY = {"UserOpsTracked": "C01", "NoLiveIdTwice": "C04", "AllocConsistent": "C06", "PendingBound": "C06",
+INV_PROPERTY = {"AlwaysDrains": "C08", "UserOpsTracked": "C01", "NoLiveIdTwice": "C04", "AllocConsistent": "C06", "PendingBound": "C06",
                 "ReceiveMaximum": "C09", "NoStrandedWork": "C08"}
 
 
@@ -1020,8 +1021,11 @@ def extreme_config_half(pid, tier, seed, workdir, known):
 
 def engine_volume(tier):
     if tier == "thorough":
-        return dict(scripted=600, adversarial=600, faithful=600, cycles=1200, races=1200, length=70, s1=8000)
-    return dict(scripted=150, adversarial=150, faithful=150, cycles=300, races=300, length=50, s1=2500)
+        v = dict(scripted=600, adversarial=600, faithful=600, cycles=1200, races=1200, length=70, s1=8000)
+    else:
+        v = dict(scripted=150, adversarial=150, faithful=150, cycles=300, races=300, length=50, s1=2500)
+    scale = float(os.environ.get("VERIF_VOLUME_SCALE", "1"))      # (for trying the plumbing of a tier quickly)
+    return {k: (x if k == "length" else max(1, int(x * scale))) for k, x in v.items()}
 
 
 def sample_evenly(items, n):
